@@ -122,7 +122,7 @@ def main():
             if builds:
                 for c in checks:
                     t0 = time.time()
-                    crc, cout = sh("VERIF_REPO=%s ./vcheck %s quick" % (REPO, c), "/verif")
+                    crc, cout = sh("VERIF_EVIDENCE_DIR=/tmp/mutants_evidence VERIF_REPO=%s ./vcheck %s quick" % (REPO, c), "/verif")
                     first = [l for l in cout.splitlines() if l.startswith("  ")][:1]
                     row["checks"][c] = {"rc": crc, "s": round(time.time() - t0, 1), "first": (first[0].strip()[:160] if first else cout.strip()[-160:])}
             results.append(row)
